@@ -136,6 +136,101 @@ theorem c05_hash_counterexample :
     (getBlock cfg [] a (some (a, 2)) true).1.get a.mh = some 2 := by
   decide
 
+/-! ## Whole histories, cancellation, sessions -/
+
+/-- Lifting to histories: along EVERY sequence of AddBlock / AddBlocks / GetBlock / GetBlocks / DeleteBlock
+calls from every initial store, with the store threaded from call to call and every exchange / blockstore
+behaviour chosen per call: each call's emits are cached when emitted, only requested CIDs are emitted, and a
+call whose reads succeed requests nothing that is stored at that moment. -/
+theorem c05_history (cfg : Cfg) (hfix : cfg.fixed = true) : ∀ (ops : List Op) (st : Store), histOk cfg st ops := by
+  intro ops
+  induction ops with
+  | nil => intro st; trivial
+  | cons op r ih =>
+    intro st
+    refine ⟨?_, ?_, ?_, ih _⟩
+    · cases op with
+      | add b pf => exact (writes_ok _ st (addBlock_writes cfg st b pf)).1
+      | addMany bs pf => exact (writes_ok _ st (addBlocks_writes cfg st bs pf)).1
+      | get c ans nOk pf rdOk => exact (getBlock_trace cfg st c ans nOk pf rdOk).1
+      | getMany ks ans nf pf rd => exact getBlocks_cached cfg st ks ans nf pf rd
+      | del c => simp [stepOp, cachedOk]
+    · intro hr
+      cases op with
+      | add b pf => exact (writes_ok _ st (addBlock_writes cfg st b pf)).2.1
+      | addMany bs pf => exact (writes_ok _ st (addBlocks_writes cfg st bs pf)).2.1
+      | get c ans nOk pf rdOk => exact (getBlock_trace cfg st c ans nOk pf rdOk).2
+      | getMany ks ans nf pf rd => exact getBlocks_req cfg st ks ans nf pf rd hr
+      | del c => simp [stepOp, reqOk]
+    · intro b hb
+      cases op with
+      | add o pf => simp only [stepOp] at hb; rw [(writes_ok _ st (addBlock_writes cfg st o pf)).2.2] at hb; simp at hb
+      | addMany bs pf => simp only [stepOp] at hb; rw [(writes_ok _ st (addBlocks_writes cfg st bs pf)).2.2] at hb; simp at hb
+      | get c ans nOk pf rdOk => simp [requested, (getBlock_requested cfg hfix st c ans nOk pf rdOk b hb).1]
+      | getMany ks ans nf pf rd => exact (getBlocks_requested cfg hfix st ks ans nf pf rd b hb).1
+      | del c => simp [stepOp, emitted] at hb
+
+/-- Bytes hash to the CID along whole histories — guarded: if every entry of the initial store is well formed
+(`H`) and every block that callers add or the exchange answers with is, then every block ever handed out is, and
+every entry of the final store is (arbitrary hash relation `H`, arbitrary failures). -/
+theorem c05_hash_history_partial (H : Key → Data → Prop) (cfg : Cfg) : ∀ (ops : List Op) (st : Store),
+    allE (fun e => H e.1 e.2) st → (∀ op ∈ ops, faithful H op) →
+    (∀ b ∈ emitted (run cfg st ops).2, H b.1.mh b.2) ∧ allE (fun e => H e.1 e.2) (run cfg st ops).1 := by
+  intro ops
+  induction ops with
+  | nil => intro st hs _; simp [run, emitted]; exact hs
+  | cons op r ih =>
+    intro st hs hf
+    have hop := hf op (by simp)
+    have hnext := stepOp_allE (fun e => H e.1 e.2) cfg st op hs hop
+    have hrec := ih (stepOp cfg st op).1 hnext (fun o ho => hf o (by simp [ho]))
+    refine ⟨?_, hrec.2⟩
+    intro b hb
+    simp only [run, emitted_append, List.mem_append] at hb
+    rcases hb with hb | hb
+    · have hsH := allE_storeH hs
+      cases op with
+      | add o pf => simp only [stepOp] at hb; rw [(writes_ok _ st (addBlock_writes cfg st o pf)).2.2] at hb; simp at hb
+      | addMany bs pf => simp only [stepOp] at hb; rw [(writes_ok _ st (addBlocks_writes cfg st bs pf)).2.2] at hb; simp at hb
+      | get c ans nOk pf rdOk => exact (getBlock_hash H cfg st c ans nOk pf rdOk hsH hop).1 b hb
+      | getMany ks ans nf pf rd => exact (getBlocks_hash H cfg st ks ans nf pf rd hsH hop).1 b hb
+      | del c => simp [stepOp, emitted] at hb
+    · exact hrec.1 b hb
+
+/-- Context cancellation only cuts a call's trace short (every `select` on ctx.Done() returns): the clauses are
+prefix-closed, so they hold for whatever was done and handed out before the cancellation took effect. -/
+theorem c05_cancel_prefix (st : Store) (pre post : List Ev) :
+    (cachedOk st (pre ++ post) = true → cachedOk st pre = true) ∧
+    (reqOk st (pre ++ post) = true → reqOk st pre = true) ∧
+    (∀ b ∈ emitted pre, b ∈ emitted (pre ++ post)) :=
+  ⟨cachedOk_prefix st pre post, reqOk_prefix st pre post, fun b hb => by simp [emitted_append, hb]⟩
+
+/-- Sessions: Session.GetBlock / GetBlocks run the same getBlock / getBlocks (so every theorem above applies to
+them verbatim); the session object only decides which fetcher is asked. -/
+theorem c05_session_same_blocks (cfg : Cfg) (sesEx : Bool) (s : Ses) (st : Store) (c : Cid) (ks : List Cid)
+    (a1 : Option Blk) (a2 : Option (List Blk)) (nOk : Bool) (nf pf : Option Nat) (rdOk : Bool) (rd : Nat → Bool) :
+    (sesGetBlock cfg sesEx s st c a1 nOk pf rdOk).2.2 = getBlock cfg st c a1 nOk pf rdOk ∧
+    (sesGetBlocks cfg sesEx s st ks a2 nf pf rd).2.2 = getBlocks cfg st ks a2 nf pf rd := ⟨rfl, rfl⟩
+
+/-- … and `exchange.NewSession` is called at most once per Session object, whatever the sequence of calls:
+after the first grabSession no later one creates a session, and the choice of fetcher never changes again. -/
+theorem c05_session_once (hasEx sesEx : Bool) (s : Ses) (n : Nat) :
+    (∀ x ∈ grabs hasEx sesEx (grabSession hasEx sesEx s).1 n, x = false) ∧
+    (grabSession hasEx sesEx (grabSession hasEx sesEx s).1).1 = (grabSession hasEx sesEx s).1 := by
+  have h := grabSession_once hasEx sesEx s
+  refine ⟨grabs_after_once hasEx sesEx n _ h, ?_⟩
+  generalize (grabSession hasEx sesEx s).1 = t at h
+  simp [grabSession, h]
+
+/-- GetBlock creates the exchange session lazily: never for a rejected CID, a failed read or a local hit. -/
+theorem c05_session_lazy (cfg : Cfg) (sesEx : Bool) (s : Ses) (st : Store) (c : Cid) (a : Option Blk) (nOk : Bool)
+    (pf : Option Nat) (rdOk : Bool) (h : valid cfg.al c = false ∨ rdOk = false ∨ ∃ d, st.get c.mh = some d) :
+    (sesGetBlock cfg sesEx s st c a nOk pf rdOk).1 = s ∧ (sesGetBlock cfg sesEx s st c a nOk pf rdOk).2.1 = false := by
+  have : getBlockGrabs cfg st c rdOk = false := by
+    unfold getBlockGrabs
+    rcases h with h | h | ⟨d, h⟩ <;> simp [h]
+  simp [sesGetBlock, this]
+
 /-! Non-vacuity -/
 example : (getBlocks { al := .dflt } [((0x12, 32, 0), 0)]
     [⟨1, 0x12, 32, 0⟩, ⟨1, 0x12, 32, 1⟩, ⟨1, 0x12, 32, 2⟩]
